@@ -49,6 +49,15 @@ CHECKS = {
             "Trusted: mapping rows name the storage's charge/discharge variables (var_name disp/disp_in/disp_out). Known "
             "finding D7 (blocks ending on a boundary) is excluded by construction and replayed as KNOWN-FINDING.",
             "DESIGN.md 5 C05"),
+    "C06": ("exhaustive enumeration of on/off patterns (itertools.product over 2^T x parameter grid) + property-based testing (Hypothesis) of point membership and end-to-end solutions against a runtime/downtime automaton, a predicate written from the statement and a brute-force reference optimum",
+            "Exploration with an exhaustive core: for every parameter set of a grid all 2^T on/off patterns (T = 5 quick, 5..8 "
+            "thorough) are pinned in EAO's own rows and decided by MILP feasibility against an automaton; generated points "
+            "decide the dispatch-level clauses in both directions (too loose and too tight); optimised solutions are checked "
+            "against the predicate, start flags, heat share, fuel identity and a brute-force optimum over all accepted patterns.",
+            "Trusted: uc.py (automaton + predicate), scipy-HiGHS milp without presolve for feasibility, refmodel.add_plant. "
+            "Profiles exact and monotone; a fall from normal operation into the first shutdown-profile step that exceeds the "
+            "ramp is left undecided (statement silent).",
+            "DESIGN.md 5 C06"),
     "C07": ("property-based testing (Hypothesis): structural invariants + differential against stand-alone asset problems, no solver",
             "Exploration: assembled problems of generated portfolios (adversarial names, unmapped variables, appended "
             "variables, several rows per variable) are compared block by block with the stand-alone problem of a fresh "
